@@ -1352,7 +1352,7 @@ class Emitter:
                 if et is not None:
                     ct = self.ctype(et)
                     return ['VF_TYPED_MOVE(%s, %s, %s, %s);' % (ct, A[0], A[1], A[2])]
-                if all(not (args[k_][1][0] == 'local' and args[k_][1][1] in self.i8src) for k_ in (0, 1)):
+                if not BYTE_COPY_LOOPS and all(not (args[k_][1][0] == 'local' and args[k_][1][1] in self.i8src) for k_ in (0, 1)):
                     # genuine byte buffers (the pointers are i8* at the source level, e.g. string storage): CBMC's
                     # built-in array copy is exact on char arrays and far cheaper than a byte loop through
                     # pointers with several candidate objects (measured: one loop iteration took 60 s)
@@ -1451,6 +1451,7 @@ class Emitter:
             return None  # zero-initialised by default (tentative def above)
         return '%s %s = %s;' % (ct, cn, self.cconst(g['type'], init, static=True))
 
+BYTE_COPY_LOOPS = False   # --byte-copy-loops: dynamic-length byte copies become loops too (symex then propagates constant bytes through them; the built-in copy does not)
 STR_DISJUNCT = r'''/* std::string::_M_disjunct(s): "s does not point into this string".  The library decides it by ordering two
    possibly unrelated pointers; symex cannot fold that and would fork every append/assign into its aliasing path.
    Distinct objects never overlap, so the answer for them is "disjunct"; inside one object the comparison is exact. */
@@ -1589,9 +1590,12 @@ def main():
     ap.add_argument('--stub-virtual-dtors', action='store_true')
     ap.add_argument('--stub-virtual', action='append', default=[], help='regex: vtable entries whose mangled name matches are replaced by an asserting stub')
     ap.add_argument('--define-external', action='append', default=[], help='regex: external globals matching get a zero-initialised definition')
+    ap.add_argument('--byte-copy-loops', action='store_true')
     ap.add_argument('--assert-external', action='append', default=[], help='regex: external functions matching get a body that asserts it is never called')
     ap.add_argument('--list', help='write the mangled names of all translated function bodies here')
     a = ap.parse_args()
+    global BYTE_COPY_LOOPS
+    BYTE_COPY_LOOPS = a.byte_copy_loops
     m = parse_module(open(a.input).read())
     class O: pass
     opts = O(); opts.stubs = dict(x.split('=', 1) for x in a.stub); opts.roots = set(a.root)
